@@ -5,7 +5,7 @@
    value.  Every witness has been replayed on cspuz/problem_serializer.py (harness/pC17.py,
    kind "reenc-witness"); none of these shapes occurs in a puzzle module. *)
 From Coq Require Import ZArith List Ascii Bool.
-From Cspuz Require Import Lib.PyErr Codec.Comb Codec.CombWf Codec.TotalModel Codec.TotalReencLeaf Codec.TotalReenc.
+From Cspuz Require Import Lib.PyErr Codec.Comb Codec.CombWf Codec.TotalModel Codec.TotalReencModel.
 Import ListNotations.
 Local Open Scope Z_scope.
 
